@@ -3,6 +3,9 @@ CONSTANTS
   MinN = 0
   MaxN = 6
   TwinMaxN = 5
+  GuiseMaxN = 4
+  GuiseTest = "callable"
+  ArgSwap = "none"
   GeoMaxN = 4
   GeoFilter = "none"
   RetMaxN = 5
